@@ -9,7 +9,12 @@ check_changes) and by a brand-new Project on the same disk state, and the two mu
 History format (JSON, also the replay/corpus format): list of ops
   ["W", mod, content]   create / rewrite module `mod` (list of name codes) with a new, larger mtime
   ["T", mod]            touch (new mtime, same text)
-  ["R", req]            request: ["main", content, query] | ["fromimport", mod]
+  ["R", req]            request: ["main", content, query] | ["fromimport", mod] | ["locimport", content, mod]
+                        (locimport = go to definition on `import mod|` below the text: raises ImportError
+                        when mod cannot be found, after the star imports of the text have been resolved)
+  ["X", req]            the same request, but its processing raises inside check_changes after the
+                        analysis (the context manager is left by an exception); the answer computed
+                        before the failure is still recorded and compared
   content = list of bindings ["D", n, attrs] | ["I", n, mod] | ["F", n, mod, x] | ["S", mod]
   query   = ["names"] | ["lint", uses] | ["attrs", x, y|null] | ["loc", x]
 """
@@ -125,6 +130,8 @@ def g_query(q):
 def g_req(r):
     if r[0] == 'main':
         return '(ReqMain %s %s)' % (g_content(r[1]), g_query(r[2]))
+    if r[0] == 'locimport':
+        return '(ReqLocImport %s %s)' % (g_content(r[1]), g_mod(r[2]))
     return '(ReqFromImport %s)' % g_mod(r[1])
 
 
@@ -133,7 +140,11 @@ def g_op(o):
         return '(Write %s %s)' % (g_mod(o[1]), g_content(o[2]))
     if o[0] == 'T':
         return '(Touch %s)' % g_mod(o[1])
-    return '(Request %s)' % g_req(o[1])
+    return '(Request %s)' % g_req(o[1])      # "R" and "X": same effects on the caches in the model
+
+
+def is_req(o):
+    return o[0] in ('R', 'X')
 
 
 def g_ans(a):
@@ -151,6 +162,30 @@ def g_ans(a):
 # --------------------------------------------------------------------------------------------
 
 BUILTIN_NAMES = set(dir(builtins))
+
+
+class Abort(Exception):
+    pass
+
+
+class RawApi(object):
+    """the three entry points of server.py without their check_changes wrapper (used inside an explicit
+    `with project.check_changes():` that is then left by an exception)"""
+
+    def __init__(self, project):
+        self.project = project
+
+    def assist(self, source, position, filename):
+        from supp import assistant
+        return assistant.assist(self.project, source, tuple(position), filename)
+
+    def location(self, source, position, filename):
+        from supp import assistant
+        return assistant.location(self.project, source, tuple(position), filename)
+
+    def lint(self, source, filename):
+        from supp import linter
+        return [r[:4] for r in linter.lint(self.project, source, filename)]
 
 
 class Runner(object):
@@ -245,6 +280,11 @@ class Runner(object):
                 src = 'from %s import ' % nm.modstr(r[1])
                 _p, names = server.assist(src, [1, len(src)], self.mainfile)
                 return ['names', self.canon_names(names)]
+            if r[0] == 'locimport':
+                tail = 'import ' + nm.modstr(r[2])
+                src = render_content(r[1], nm) + tail + '\n'
+                locs = server.location(src, [src.count('\n'), len(tail)], self.mainfile)
+                return ['loc', self.canon_loc(locs)]
             c, q = r[1], r[2]
             src = render_content(c, nm)
             ln = src.count('\n') + 1
@@ -272,6 +312,20 @@ class Runner(object):
         except Exception as e:   # any other exception is an observable answer too
             return ['exception', e.__class__.__name__]
 
+    def ask_abort(self, server, r):
+        """the request is processed inside check_changes and then fails: the context is left by an exception"""
+        box = []
+        try:
+            with server.project.check_changes():
+                box.append(self.ask(RawApi(server.project), r))
+                raise Abort()
+        except Abort:
+            pass
+        return box[0]
+
+    def do(self, server, o):
+        return self.ask_abort(server, o[1]) if o[0] == 'X' else self.ask(server, o[1])
+
     def run(self, ops):
         """returns (long-lived answers, fresh answers), one per request"""
         la, fa = [], []
@@ -281,8 +335,8 @@ class Runner(object):
             elif o[0] == 'T':
                 self.touch(o[1])
             else:
-                la.append(self.ask(self.long, o[1]))
-                fa.append(self.ask(self.new_server(), o[1]))
+                la.append(self.do(self.long, o))
+                fa.append(self.do(self.new_server(), o))
         return la, fa
 
 
@@ -320,7 +374,7 @@ def run_history_new_process(ctx, h, token):
             elif o[0] == 'T':
                 r.touch(o[1])
             else:
-                la.append(r.ask(r.long, o[1]))
+                la.append(r.do(r.long, o))
                 pa.append(ask_new_process(r, o[1]))
     finally:
         r.close()
@@ -370,11 +424,15 @@ def exhaustive_alphabet():
         ['T', A],
         ['W', [4, 7], [['D', 16, []]]],                     # new submodule p.t
     ]
-    return setup, [['R', r] for r in reqs] + edits
+    failing = [
+        ['X', reqs[0]],                                     # a.B. is analysed, then the request fails
+        ['R', ['locimport', [['S', A]], [9]]],              # go to definition on `import <missing>`: ImportError
+    ]
+    return setup, [['R', r] for r in reqs] + failing + edits
 
 
 # ranks witnessing that every disk reachable in the exhaustive part is acyclic (C09_acyclic)
-EXH_RANKS = [[Z, 0], [[4, 7], 0], [C, 1], [S, 2], [P, 3], [B_, 4], [A, 5]]
+EXH_RANKS = [[Z, 0], [[4, 7], 0], [[9], 0], [C, 1], [S, 2], [P, 3], [B_, 4], [A, 5]]
 
 
 def gen_universe(rng):
@@ -456,6 +514,10 @@ def gen_request(rng, mods, cur):
     if r < 0.1:
         return ['fromimport', rng.choice(mods)]
     present = [list(m) for m in cur] or mods
+    if r < 0.2:
+        # go to definition on an import below a text with star imports; mostly of a module that is nowhere
+        text = [['S', rng.choice(present)] for _ in range(rng.randint(1, 2))]
+        return ['locimport', text, [9] if rng.random() < 0.7 else rng.choice(mods)]
     t = rng.choice(present) if rng.random() < 0.85 else rng.choice(mods)
     names = visible_names(cur, mods)
     pick = lambda: rng.choice(names) if rng.random() < 0.85 else rng.choice(NAME_POOL)
@@ -500,8 +562,9 @@ def gen_history(rng, maxlen):
         if r < 0.5:
             # repeat the previous request now and then: that is how staleness shows
             rq = last_req if last_req is not None and rng.random() < 0.4 else gen_request(rng, mods, cur)
-            last_req = rq
-            ops.append(['R', rq])
+            if rq[0] == 'main':
+                last_req = rq
+            ops.append(['X' if rng.random() < 0.15 else 'R', rq])
         elif r < 0.92:
             i = rng.randrange(len(mods))
             c = gen_content(rng, mods, i, cur)
@@ -517,11 +580,11 @@ def is_nontrivial(ops):
     """a request, then a change on disk, then another request: the cache was warm when the disk changed"""
     stage = 0
     for o in ops:
-        if stage == 0 and o[0] == 'R':
+        if stage == 0 and is_req(o):
             stage = 1
         elif stage == 1 and o[0] in ('W', 'T'):
             stage = 2
-        elif stage == 2 and o[0] == 'R':
+        elif stage == 2 and is_req(o):
             return True
     return False
 
@@ -662,9 +725,17 @@ Definition acyclic (c : case) : bool :=
 ''' % FUEL
 
 
+def model_view(h, answers):
+    """observed answers as the model states them. For go-to-definition on `import <missing>` the model
+    says ImportError; should supp one day answer "no location" instead of raising, that is the same
+    fact for this property (the direct comparison long-lived vs fresh stays literal)."""
+    reqs = [o[1] for o in h['ops'] if is_req(o)]
+    return [['importerror'] if r[0] == 'locimport' and a == ['loc', []] else a for r, a in zip(reqs, answers)]
+
+
 def case_term(h, la, fa):
-    gl = [g_ans(a) for a in la]
-    gf = [g_ans(a) for a in fa]
+    gl = [g_ans(a) for a in model_view(h, la)]
+    gf = [g_ans(a) for a in model_view(h, fa)]
     if any(x is None for x in gl + gf):
         return None
     ranks = coq_list(['(%s, %d%%nat)' % (g_mod(m), r) for m, r in h.get('ranks', [])])
@@ -724,7 +795,7 @@ def run(ctx):
     logging.getLogger('supp').setLevel(logging.CRITICAL)   # "Failed import of ..." is expected noise
     proof_ok = ctx.coq_props()
     cov = ctx.coverage
-    cov['rule'] = ('histories = corpus + every sequence of length <= L over a fixed alphabet of 7 requests and 5 edits on a '
+    cov['rule'] = ('histories = corpus + every sequence of length <= L over a fixed alphabet of 7 requests, 2 failing requests and 5 edits on a '
                    'fixed 5-module project + random histories (3-6 modules, 1-2 packages, acyclic import graph, up to 40 ops); '
                    'direct: every request answered by the long-lived project (via supp.server.Server) and by a new Project on '
                    'the same disk must be equal; (I)/(R): Model.Cache answers/fresh_answers evaluated in Coq on the same history '
@@ -745,7 +816,7 @@ def run(ctx):
     L = ctx.pick(3, 4)
     for n in range(1, L + 1):
         for seq in itertools.product(alphabet, repeat=n):
-            if not any(o[0] == 'R' for o in seq):
+            if not any(is_req(o) for o in seq):
                 continue
             histories.append({'ops': setup + list(seq), 'packages': [P], 'rel_ok': False, 'origin': 'exhaustive',
                               'ranks': EXH_RANKS})
@@ -768,8 +839,9 @@ def run(ctx):
         ctx.histogram('origin', h['origin'].split('/')[0])
         ctx.histogram('requests_per_history', min(nreq, 20))
         for o in h['ops']:
-            if o[0] == 'R':
-                ctx.histogram('request_kind', o[1][0] if o[1][0] == 'fromimport' else o[1][2][0])
+            if is_req(o):
+                ctx.histogram('request_kind', ('failing-after-analysis:' if o[0] == 'X' else '')
+                              + (o[1][0] if o[1][0] != 'main' else o[1][2][0]))
         for a in la:
             ctx.histogram('answer_kind', a[0] if a[0] != 'names' else ('names' if a[1] else 'names-empty'))
         ctx.sample({'ops': h['ops'][:8], 'answers': la[:4]}, limit=3)
